@@ -20,10 +20,10 @@ def model(*keys):
 
 class IterV:
     """iterator value. `src` is a list (consumed from `pos`) or a python callable next(ex) -> value | None"""
-    __slots__ = ('src', 'pos', 'end', 'fn', 'tag', 'peeked')
+    __slots__ = ('src', 'pos', 'end', 'fn', 'tag', 'peeked', 'aux')
 
     def __init__(s, src=None, fn=None, tag=None):
-        s.src = src; s.pos = 0; s.end = len(src) if src is not None else 0; s.fn = fn; s.tag = tag; s.peeked = None
+        s.src = src; s.pos = 0; s.end = len(src) if src is not None else 0; s.fn = fn; s.tag = tag; s.peeked = None; s.aux = None
 
     def next(s, ex):
         if s.peeked is not None:
@@ -566,4 +566,9 @@ def m_vec_into_iter(ex, site, a): return to_iter(ex, a[0])
 
 
 @model('Chars::as_str')
-def m_chars_as_str(ex, site, a): raise Unsupported('Chars::as_str')
+def m_chars_as_str(ex, site, a):
+    it = iter_of_arg(ex, a[0])
+    if it.aux is None: raise Unsupported('Chars::as_str')
+    sl, offs = it.aux
+    start = offs[it.pos] if it.pos < len(offs) else len(sl)
+    return SliceRef(sl.vec, sl.lo + start, sl.hi, 'str')
